@@ -19,7 +19,10 @@ From Coq Require Import Arith.
 (* WiringPortRef as far as the key and the rank pass look at it.  In a statement the number in
    SPeer is the label of the producing statement; in an instance it is the instance id. *)
 Inductive src :=
-| SPeer (n : nat) (path : list nat)      (* peered: producing node, path inside its output *)
+| SPeer (n : nat) (path : list nat) (okind : nat)
+     (* peered: producing node, path inside the chosen output root; okind = GraphEdgeSourceKind:
+        0 the ordinary output, 1 the hidden error output (error_output / exception_time_series),
+        2 the hidden recordable-state output *)
 | SDelay (ph : nat) (path : list nat)    (* delayed_binding placeholder (identity of its state), path *)
 | SNull
 | SStruct (cs : list src).               (* structural (TSL/TSB composed at the call site) *)
@@ -53,7 +56,7 @@ Fixpoint list_eqb {A} (eqb : A -> A -> bool) (a b : list A) : bool :=
 
 Fixpoint src_eqb (a b : src) : bool :=
   match a, b with
-  | SPeer n p, SPeer n' p' => (n =? n')%nat && list_eqb Nat.eqb p p'
+  | SPeer n p k, SPeer n' p' k' => (n =? n')%nat && list_eqb Nat.eqb p p' && (k =? k')%nat
   | SDelay h p, SDelay h' p' => (h =? h')%nat && list_eqb Nat.eqb p p'
   | SNull, SNull => true
   | SStruct cs, SStruct cs' =>
@@ -136,7 +139,7 @@ Fixpoint tab_find (k : key) (t : list (key * nat)) : option nat :=
 (* the caller turns labels into the ports it holds; None = the order is not admissible *)
 Fixpoint resolve (env : list (nat * nat)) (phs : list nat) (s : src) : option src :=
   match s with
-  | SPeer l p => match alookup l env with Some i => Some (SPeer i p) | None => None end
+  | SPeer l p k => match alookup l env with Some i => Some (SPeer i p k) | None => None end
   | SDelay h p => if memb h phs then Some (SDelay h p) else None
   | SNull => Some SNull
   | SStruct cs =>
@@ -274,7 +277,7 @@ Definition wire_prog_old (sharing : bool) (prog : list stmt) (order : list nat) 
 (* collect_producers; None = an unbound delayed_binding *)
 Fixpoint producers (binds : list (nat * (nat * list nat))) (s : src) : option (list nat) :=
   match s with
-  | SPeer i _ => Some [i]
+  | SPeer i _ _ => Some [i]     (* whatever output root is read: the producer must have had its turn *)
   | SDelay h _ => match alookup h binds with Some (i, _) => Some [i] | None => None end
   | SNull => Some []
   | SStruct cs =>
@@ -316,13 +319,13 @@ Definition rgraph_of (w : wst) : option rgraph :=
   | Some es => Some {| rg_n := length (w_insts w); rg_push := map (fun it => nd_push (i_def it)) (w_insts w); rg_edges := es |}
   end.
 
-(* a compiled edge: (source instance, source path, target instance, target path) *)
+(* a compiled edge: (source instance, source root kind :: source path, target instance, target path) *)
 Definition cedge := (nat * list nat * nat * list nat)%type.
 
 Fixpoint emit_src (binds : list (nat * (nat * list nat))) (t : nat) (tp : list nat) (s : src) : option (list cedge) :=
   match s with
-  | SPeer i p => Some [(i, p, t, tp)]
-  | SDelay h p => match alookup h binds with Some (i, p0) => Some [(i, p0 ++ p, t, tp)] | None => None end
+  | SPeer i p k => Some [(i, k :: p, t, tp)]
+  | SDelay h p => match alookup h binds with Some (i, p0) => Some [(i, O :: p0 ++ p, t, tp)] | None => None end
   | SNull => Some []
   | SStruct cs =>
       (fix go (k : nat) (xs : list src) : option (list cedge) :=
@@ -361,6 +364,22 @@ Fixpoint active_from (k : nat) (ins : list input) : list nat :=
   | i :: r => (if in_rank i && negb (in_passive i) then [k] else []) ++ active_from (S k) r
   end.
 Definition active_slots (it : inst) : list nat := active_from 0 (i_ins it).
+
+(* Error capture.  Reading a node's hidden error output (exception_time_series(port)) first calls
+   Wiring::activate_error_capture on the producing instance: its builder is amended IN PLACE (it gains an
+   error output and runs under try/catch); the instance keeps its position, its inputs and - on the
+   unchanged tree - its entry in the intern table under the key it was inserted with, so a later duplicate
+   `add_node` (whose key comes from a fresh, un-captured builder) still finds and shares it.  Nothing in
+   [wst] changes; which instances are captured can be read off the wired inputs. *)
+Fixpoint err_refs (s : src) : list nat :=
+  match s with
+  | SPeer n _ k => if (k =? 1)%nat then [n] else []
+  | SStruct cs => flat_map err_refs cs
+  | _ => []
+  end.
+
+Definition captured (w : wst) (i : nat) : bool :=
+  existsb (fun it => existsb (fun inp => memb i (err_refs (in_src inp))) (i_ins it)) (w_insts w).
 
 Inductive outcome := Built (w : wst) (g : rgraph) (o : list nat) (es : list cedge) | Rejected (code : Z).
 
@@ -455,15 +474,15 @@ Inductive tree :=
 | TNull
 | TNode (site : option nat) (def : nat) (sch : list Z) (scal : option (list Z)) (ins : list tree)
 | TIn (tpath : list nat) (rank : bool) (passive : bool) (s : tree)
-| TPeer (path : list nat) (t : tree)
+| TPeer (okind : nat) (path : list nat) (t : tree)
 | TStruct (cs : list tree).
 
 Definition site_of (d : ndef) (l : nat) : option nat := if interns d then None else Some l.
 
 Fixpoint unf_src (node : nat -> tree) (bind : nat -> option (nat * list nat)) (s : src) : tree :=
   match s with
-  | SPeer n p => TPeer p (node n)
-  | SDelay h p => match bind h with Some (n, p0) => TPeer (p0 ++ p) (node n) | None => TUnbound end
+  | SPeer n p k => TPeer k p (node n)
+  | SDelay h p => match bind h with Some (n, p0) => TPeer O (p0 ++ p) (node n) | None => TUnbound end
   | SNull => TNull
   | SStruct cs => TStruct (map (unf_src node bind) cs)
   end.
